@@ -1017,8 +1017,25 @@ func (c *Ctx) APIRoots() []*ssa.Function {
 		"yangentry.Parse", "main.main",
 	}
 	var out []*ssa.Function
+	seen := map[*ssa.Function]bool{}
 	for _, n := range names {
-		out = append(out, c.MustFn(n))
+		f := c.MustFn(n)
+		seen[f] = true
+		out = append(out, f)
+	}
+	// and every exported method of Entry: the tree that comes back is read through them
+	if et := c.Named("yang", "Entry"); et != nil {
+		var more []*ssa.Function
+		for _, fn := range c.Funcs {
+			if seen[fn] || fn.Parent() != nil || fn.Blocks == nil || fn.Object() == nil || !fn.Object().Exported() || fn.Signature.Recv() == nil {
+				continue
+			}
+			if namedOf(fn.Signature.Recv().Type()) == et {
+				more = append(more, fn)
+			}
+		}
+		sort.Slice(more, func(i, j int) bool { return c.FnName(more[i]) < c.FnName(more[j]) })
+		out = append(out, more...)
 	}
 	return out
 }
